@@ -254,8 +254,17 @@ func checkC05(c *Ctx) {
 	}
 	if callFn != nil && capF != nil {
 		for f, calls := range c.callersOf(callFn) {
-			own := len(callsOf(topFn(f), capF)) > 0
 			for _, ci := range calls {
+				// the capture comes first: a state captured after the frame is pushed puts the frame back
+				own := false
+				for _, cp := range callsOf(f, capF) {
+					if dominatesInstr(cp.(ssa.Instruction), ci.(ssa.Instruction)) {
+						own = true
+					}
+				}
+				if !own && f.Parent() != nil {
+					own = len(callsOf(topFn(f), capF)) > 0 // a closure run inside the enclosing function's bracket
+				}
 				if own {
 					c.ok("C05-CAP", fnName(f), "calls CallFunction", ci.Pos(), "has its own capture/restore bracket")
 				} else if c.isExecuteMethod(f) {
